@@ -3,6 +3,7 @@ package main
 // Per-worker state: path condition, decisions, solver, journal, statistics.
 
 import (
+	"os"
 	"fmt"
 	"go/types"
 	"sort"
@@ -246,7 +247,20 @@ func (w *W) pushDecision(d decision) {
 	w.stats.Decisions++
 }
 
+var forkProfile = os.Getenv("GOSYM_FORKSITES") != ""
+var forkMu sync.Mutex
+var forkSites = map[string]int{}
+
 func (w *W) queueAlt(d decision) {
+	if forkProfile {
+		st := w.stackString()
+		if parts := strings.SplitN(st, " <- ", 5); len(parts) > 4 {
+			st = strings.Join(parts[:4], " <- ")
+		}
+		forkMu.Lock()
+		forkSites[string(d.K)+" "+st]++
+		forkMu.Unlock()
+	}
 	alt := make([]decision, len(w.trail)+1)
 	copy(alt, w.trail)
 	alt[len(w.trail)] = d
